@@ -38,7 +38,9 @@ Record Inv (st : state) (e : list (Z * value)) : Prop := mkInv {
   inv_rows : Forall2 (R (toast st)) (rows st) e;
   inv_keys : NoDup (map r_k (rows st));
   inv_cids : distinct (rows st);
-  inv_rid : 1 <= next_rid st
+  inv_rid : 1 <= next_rid st;
+  inv_rids : forall r, In r (rows st) -> 0 <= r_rid r < next_rid st;     (* row keys come from the counter *)
+  inv_gone : forall x, In x (gone st) -> 0 <= x < next_rid st
 }.
 
 (* a written value outside finding classes 1 and 2 that fits the column *)
@@ -132,7 +134,7 @@ Qed.
 
 (* ---------------------------------------------------------------- facts about rows under the invariant *)
 Lemma inv_row_repr st e r : Inv st e -> In r (rows st) -> exists x, In x e /\ R (toast st) r x.
-Proof. intros [H _ _ _] Hin. eapply Forall2_in_l; eauto. Qed.
+Proof. intros [H _ _ _ _ _] Hin. eapply Forall2_in_l; eauto. Qed.
 
 (* a row that refers to a chunk id occupies key (cid, 0) *)
 Lemma inv_cid_present st e r c : Inv st e -> In r (rows st) -> cid_of (r_st r) = Some c -> exists x, toast st (c, 0) = Some x.
@@ -212,8 +214,11 @@ Proof.
   assert (Forall2 (R m') (rows st) e) as Hrows'.
   { eapply (F2_impl (R (toast st)) (R m')); [exact (inv_rows st e Hi)|].
     intros r x _ [A B]. split; [exact A | eapply repr_extends; eauto]. }
-  assert (forall stx, rows stx = rows st -> toast stx = m' -> next_rid stx = next_rid st + 1 -> Inv stx e) as Hsame.
-  { intros stx E1 E2 E3. constructor; rewrite ?E1, ?E2, ?E3; auto; [exact (inv_keys st e Hi) | exact (inv_cids st e Hi) | lia]. }
+  assert (forall stx, rows stx = rows st -> toast stx = m' -> next_rid stx = next_rid st + 1 -> gone stx = gone st -> Inv stx e) as Hsame.
+  { intros stx E1 E2 E3 E4. constructor; rewrite ?E1, ?E2, ?E3, ?E4; auto;
+      [exact (inv_keys st e Hi) | exact (inv_cids st e Hi) | lia
+      | intros r Hin; pose proof (inv_rids st e Hi r Hin); lia
+      | intros x Hin; pose proof (inv_gone st e Hi x Hin); lia]. }
   destruct sv as [s|].
   - destruct Hsv as [Hrepr Hfree].
     destruct (has_rid (next_rid st) (rows st) || existsb (Z.eqb (next_rid st)) (gone st)).
@@ -221,7 +226,7 @@ Proof.
     + injection H as <- <-. exists (exp_ins k v e).
       split; [reflexivity|].
       split; [|cbn [dead lost next_rid rows]; repeat split; auto; intros y Hy; apply ins_row_keys_in in Hy; exact Hy].
-      constructor; cbn [rows toast next_rid].
+      constructor; cbn [rows toast next_rid gone].
       * apply (F2_ins (R m') (R_key m')); [exact Hrows'|]. split; [reflexivity | exact Hrepr].
       * apply ins_row_nodup; [exact (inv_keys st e Hi) | exact Hfresh].
       * intros r r' c Hin Hin' Hk Hcr Hcr'.
@@ -231,6 +236,8 @@ Proof.
         -- cbn [r_st] in Hcr'. destruct (inv_cid_present st e r c Hi Hin Hcr) as [x Hx]. rewrite (Hfree c Hcr') in Hx. discriminate.
         -- eapply (inv_cids st e Hi r r' c); eauto.
       * lia.
+      * intros r Hin. apply ins_row_in in Hin as [->|Hin]; [cbn [r_rid]; lia|]. pose proof (inv_rids st e Hi r Hin). lia.
+      * intros x Hin. pose proof (inv_gone st e Hi x Hin). lia.
   - injection H as <- <-. exists e. fin_same Hsame.
 Qed.
 
@@ -245,8 +252,8 @@ Proof.
   intros Hi Hc H Hlost. pose proof (inv_rid st e Hi) as Hr1.
   unfold step_upd in H.
   set (uc := match p with PS => true | _ => upd_cached st end) in H.
-  assert (forall stx, rows stx = rows st -> toast stx = toast st -> next_rid stx = next_rid st -> Inv stx e) as Hsame.
-  { intros stx E1 E2 E3. constructor; rewrite ?E1, ?E2, ?E3; destruct Hi; auto. }
+  assert (forall stx, rows stx = rows st -> toast stx = toast st -> next_rid stx = next_rid st -> gone stx = gone st -> Inv stx e) as Hsame.
+  { intros stx E1 E2 E3 E4. constructor; rewrite ?E1, ?E2, ?E3, ?E4; destruct Hi; auto. }
   destruct (find_k k (rows st)) as [r|] eqn:Ef.
   - destruct (find_k_some k (rows st) r Ef) as [Hin Hk].
     destruct ((match p with PS => upd_cached st | _ => false end) && pk).
@@ -261,7 +268,11 @@ Proof.
         exists (exp_set k v e).
         split; [reflexivity|].
         split; [|cbn [dead lost next_rid rows]; repeat split; auto; apply set_row_keys].
-        constructor; cbn [rows toast next_rid]; [| rewrite set_row_keys; exact (inv_keys st e Hi) | | exact Hr1].
+        constructor; cbn [rows toast next_rid gone];
+          [| rewrite set_row_keys; exact (inv_keys st e Hi) | | exact Hr1
+           | intros r0 Hin0; destruct (set_row_in k s (rows st) r0 (inv_keys st e Hi) Hin0) as [(ra & Hra & _ & ->)|[Hra _]];
+             [cbn [r_rid]; exact (inv_rids st e Hi ra Hra) | exact (inv_rids st e Hi r0 Hra)]
+           | exact (inv_gone st e Hi)].
         -- apply (F2_set (R (toast st)) (R m2) (R_key (toast st))); [exact (inv_rows st e Hi) | exact (inv_keys st e Hi) | |].
            ++ intros r' x Hin' HR Hk'. rewrite <- Hk in Hk'.
               destruct (drop_old_others st e r r' x Hi Hin Hin' Hk' HR) as [A B].
@@ -288,7 +299,8 @@ Proof.
         exists e.
         split; [reflexivity|].
         split; [|cbn [dead lost next_rid rows]; repeat split; auto].
-        constructor; cbn [rows toast next_rid]; [| exact (inv_keys st e Hi) | exact (inv_cids st e Hi) | exact Hr1].
+        constructor; cbn [rows toast next_rid gone];
+          [| exact (inv_keys st e Hi) | exact (inv_cids st e Hi) | exact Hr1 | exact (inv_rids st e Hi) | exact (inv_gone st e Hi)].
         eapply (F2_impl (R (toast st)) (R m2)); [exact (inv_rows st e Hi)|].
         intros r' x _ [A B]. split; [exact A | eapply repr_extends; eauto].
   - injection H as <- <-. exists (exp_set k v e).
@@ -311,7 +323,10 @@ Proof.
     exists (exp_del k e).
     split; [reflexivity|].
     split; [|cbn [dead lost next_rid rows]; repeat split; auto; intros y; apply del_row_keys_incl].
-    constructor; cbn [rows toast next_rid]; [| apply del_row_nodup; exact (inv_keys st e Hi) | | exact (inv_rid st e Hi)].
+    constructor; cbn [rows toast next_rid gone];
+      [| apply del_row_nodup; exact (inv_keys st e Hi) | | exact (inv_rid st e Hi)
+       | intros r0 Hin0; destruct (del_row_in k (rows st) r0 (inv_keys st e Hi) Hin0) as [Hr0 _]; exact (inv_rids st e Hi r0 Hr0)
+       | intros x [<-|Hx]; [exact (inv_rids st e Hi r Hin) | exact (inv_gone st e Hi x Hx)]].
     + apply (F2_del (R (toast st)) (R (drop_old (toast st) (r_st r))) (R_key (toast st))); [exact (inv_rows st e Hi) | exact (inv_keys st e Hi) |].
       intros r' x Hin' HR Hk'. rewrite <- Hk in Hk'. eapply drop_old_others; eauto.
     + intros r1 r2 c Hin1 Hin2 Hk12 Hc1 Hc2.
